@@ -122,7 +122,7 @@ let gmap_ops = [| "add_node"; "remove_node"; "add_edge"; "remove_edge"; "clear";
 let all_tags = [| "bool"; "err"; "panic"; "idx"; "unit"; "counts"; "row"; "wrow"; "erefs"; "nw"; "OUT-OF-FUEL"; "nat";
                   "notsorted"; "none"; "pair"; "eidxs"; "nodes"; "out"; "in"; "has"; "limit"; "some";
                   "nb"; "nbo"; "nbi"; "ed"; "edo"; "edi"; "gn"; "ge"; "el"; "nbu"; "exto"; "exti"; "elimit"; "oob";
-                  "walk"; "econn"; "missed"; "vac"; "free"; "seq"; "events"; "cycle"; "comp"; "cidx"; "scores"; "path"; "dist"; "pred"; "fw"; "fwp"; "mse"; "msn"; "bytes"; "dec"; "text"; "wire"; "robust"; "order"; "pos"; "atpos"; "selfloop"; "range"; "pairs"; "flow"; "dom" |]
+                  "walk"; "econn"; "missed"; "vac"; "free"; "seq"; "events"; "cycle"; "comp"; "cidx"; "scores"; "path"; "dist"; "pred"; "fw"; "fwp"; "mse"; "msn"; "bytes"; "dec"; "text"; "wire"; "robust"; "order"; "pos"; "atpos"; "selfloop"; "range"; "pairs"; "flow"; "dom"; "vhdr"; "nrefs"; "nbin"; "adj" |]
 let view_ops = [| "node"; "out"; "in"; "neighbors_edges_mismatch"; "erefs"; "_5"; "_6"; "_7"; "_8"; "_9";
                   "dfs"; "dfs_moveto"; "dfs_reset"; "dfspost"; "bfs"; "topo"; "topo_with_initials"; "dfsvisit"; "dfspost_moveto"; "_19";
                   "connected_components"; "is_cyclic_undirected"; "toposort"; "toposort2"; "is_cyclic_directed"; "has_path";
@@ -155,6 +155,7 @@ let () =
    | "C18g6" -> run_generic [| "g6"; "g6d" |] all_tags Graph6M.run_case lines oc
    | "C18dot" -> run_generic [| "dn"; "de"; "render" |] all_tags DotM.run_case lines oc
    | "C14" -> run_generic [| "add_node"; "try_add_edge"; "try_update_edge"; "build_add_edge"; "build_update_edge"; "remove_edge"; "remove_node"; "is_valid_edge"; "raw_edge"; "range" |] all_tags AcyclicIO.run_case lines oc
+   | "C06" -> run_generic [| "node"; "out"; "in"; "nb"; "nbin"; "erefs"; "nrefs"; "adj"; "_8"; "_9"; "consistent"; "adaptor"; "adaptor2" |] all_tags FullView.run_case lines oc
    | "C03" -> run_generic gmap_ops all_tags GraphMapM.run_case lines oc
    | "C04" -> run_generic mg_ops mg_tags MatrixM.run_case lines oc
    | "C05csr" -> run_generic csr_ops csr_tags CsrM.run_case lines oc
